@@ -25,6 +25,9 @@ def run_queries(project, queries, workdir, mode='json', timeout=600, env_extra=N
     if os.path.exists(of):
         os.remove(of)
     env = dict(ENV, HOME=workdir, **(env_extra or {}))
+    # the limit is for the whole batch (one child evaluates all queries): it grows with the batch, so that a loaded
+    # machine does not turn a long batch into a `timeout` verdict for whichever query happens to be running
+    timeout = max(timeout, 900, 2 * len(queries))
     start, results, graph = 0, {}, None
     ids = [qid for qid, _ in queries]
     guard = 0
